@@ -232,7 +232,7 @@ theorem sync_onlyLatest_runFrom (n : Net) : ∀ (evs : List Event) (st : HState)
     exact ih _ _ (syncStep_linv n e h)
 
 theorem linv_empty (k : Kind) (b1 b2 b3 b4 : Bool) : LInv k ⟨[], b1, b2, b3, b4⟩ LMon.init :=
-  ⟨fun e he => (nomatch he), rfl⟩
+  ⟨fun _ he => (nomatch he), rfl⟩
 
 theorem prop_onlyLatest_run (n : Net) (clock0 : Nat) (r0 : FetchRes) (evs : List Event) :
     onlyLatestOK .prop n (run .prop n clock0 r0 evs) = true := by
